@@ -115,14 +115,18 @@ Proof. cbv zeta. repeat split; vm_compute; reflexivity. Qed.
    literal; for != the complement, so members from which inner reaches no number are kept (ctest / entry_test).  A negated
    existence filter [?(!@ inner)] (NegFilt.v) keeps the members from which inner reaches nothing.  A filter over a query in
    disjunctive form [?(b&&b...||b&&b...)] (QueryParse.v, QueryAddr.v; every b one of the three kinds above, no blanks) keeps
-   the members for which some conjunction has all its basic queries true (dnf_test). *)
-From JP Require Import FiltParse CmpParse NegFilt QueryParse FiltChain FiltAddr CmpAddr QueryAddr FiltChainAddr.
+   the members for which some conjunction has all its basic queries true (dnf_test).  A basic query may also look at the
+   DOCUMENT (RootOp.v; the first argument of nav_allf): `$ steps` is true for every member when the steps reach something
+   from the document root, `!$ steps` when they reach nothing, and `@ inner OP $ steps` (OP one of < <= > >=, both paths
+   single-valued) compares each member's number with the number the `$` path reaches — no member is kept when it reaches
+   nothing or something that is not a number (root_entry). *)
+From JP Require Import FiltParse CmpParse NegFilt RootOp QueryParse FiltChain FiltAddr CmpAddr QueryAddr FiltChainAddr.
 Theorem C01_filter_retrieval : forall cfg parse_float regex_ok ffun afun regex_match,
   (forall f v w, small v -> ffun f v = Some w -> small w) ->
   (forall f l w, Forall small l -> afun f l = Some w -> small w) ->
   forall x r doc st, forallb fstep_ok (x :: r) = true -> forallb (fstep_okp parse_float) (x :: r) = true -> small doc -> ok st ->
   exists t, parse_with cfg parse_float regex_ok jsonpath_grammar (fchain_path (x :: r)) = ParseOk t /\
-            match nav_allf parse_float (x :: r) ([], doc) with
+            match nav_allf parse_float doc (x :: r) ([], doc) with
             | [] => exists e, fst (eval_run ffun afun regex_match t doc st) = OErr e
             | l => fst (eval_run ffun afun regex_match t doc st) = OOk (map (loc_result cfg) l)
             end.
@@ -134,8 +138,8 @@ Example C01_filter_example :
   let path := [FE [RPlain (SDot [97%N])]] in
   fchain_path path = [36; 91; 63; 40; 64; 46; 97; 41; 93]%N /\
   forallb fstep_ok path = true /\
-  map snd (nav_allf (fun _ => None) path ([], doc)) = [VObj [("a", VNum (num_of_Z 1))]; VObj [("a", VNull)]]%string /\
-  map snd (nav_allf (fun _ => None) [FS (RPlain (SWild false)); FE []] ([], VObj [("k", doc)]%string)) = [VObj [("a", VNum (num_of_Z 1))]; VObj [("b", VNum (num_of_Z 2))]; VNum (num_of_Z 3); VObj [("a", VNull)]]%string.
+  map snd (nav_allf (fun _ => None) doc path ([], doc)) = [VObj [("a", VNum (num_of_Z 1))]; VObj [("a", VNull)]]%string /\
+  map snd (nav_allf (fun _ => None) VNull [FS (RPlain (SWild false)); FE []] ([], VObj [("k", doc)]%string)) = [VObj [("a", VNum (num_of_Z 1))]; VObj [("b", VNum (num_of_Z 2))]; VNum (num_of_Z 3); VObj [("a", VNull)]]%string.
 Proof. cbv zeta. repeat split; vm_compute; reflexivity. Qed.
 
 Example C01_comparison_filter_example :
@@ -145,15 +149,15 @@ Example C01_comparison_filter_example :
   let ne := [FC [RPlain (SDot [97%N])] ONe [50%N]] in
   fchain_path gt = [36; 91; 63; 40; 64; 46; 97; 62; 50; 41; 93]%N /\
   forallb fstep_ok gt = true /\ forallb (fstep_okp pf) gt = true /\
-  map snd (nav_allf pf gt ([], doc)) = [VObj [("a", VJNum "3" (num_of_Z 3))]]%string /\
-  List.length (nav_allf pf ne ([], doc)) = 4%nat.
+  map snd (nav_allf pf doc gt ([], doc)) = [VObj [("a", VJNum "3" (num_of_Z 3))]]%string /\
+  List.length (nav_allf pf doc ne ([], doc)) = 4%nat.
 Proof. cbv zeta. repeat split; vm_compute; reflexivity. Qed.
 
 Example C01_negated_filter_example :
   let doc := VArr [VObj [("a", VNum (num_of_Z 1))]; VObj [("b", VNum (num_of_Z 2))]; VNum (num_of_Z 3)]%string in
   let path := [FN [RPlain (SDot [97%N])]] in
   fchain_path path = [36; 91; 63; 40; 33; 64; 46; 97; 41; 93]%N /\ forallb fstep_ok path = true /\
-  map snd (nav_allf (fun _ => None) path ([], doc)) = [VObj [("b", VNum (num_of_Z 2))]; VNum (num_of_Z 3)]%string.
+  map snd (nav_allf (fun _ => None) doc path ([], doc)) = [VObj [("b", VNum (num_of_Z 2))]; VNum (num_of_Z 3)]%string.
 Proof. cbv zeta. repeat split; vm_compute; reflexivity. Qed.
 
 Example C01_query_filter_example :
@@ -163,5 +167,20 @@ Example C01_query_filter_example :
   let path := [FQ [[BC a OGt [50%N]; BN b]; [BE c]]] in
   fchain_path path = [36; 91; 63; 40; 64; 46; 97; 62; 50; 38; 38; 33; 64; 46; 98; 124; 124; 64; 46; 99; 41; 93]%N /\
   forallb fstep_ok path = true /\ forallb (fstep_okp pf) path = true /\
-  map snd (nav_allf pf path ([], doc)) = [VObj [("a", VNum (num_of_Z 3))]; VObj [("c", VNull)]]%string.
+  map snd (nav_allf pf doc path ([], doc)) = [VObj [("a", VNum (num_of_Z 3))]; VObj [("c", VNull)]]%string.
+Proof. cbv zeta. repeat split; vm_compute; reflexivity. Qed.
+
+Example C01_root_operand_example :
+  let pf := fun s : string => @None num in
+  let doc := VObj [("lim", VNum (num_of_Z 2)); ("xs", VArr [VObj [("a", VNum (num_of_Z 1))]; VObj [("a", VJNum "3" (num_of_Z 3))]; VObj [("a", VStr "5")]])]%string in
+  let a := [RPlain (SDot [97%N])] in let lim := [RPlain (SDot [108%N; 105%N; 109%N])] in let no := [RPlain (SDot [110%N])] in
+  let xs := FS (RPlain (SDot [120%N; 115%N])) in
+  let gt := [xs; FQ [[BCR a OGt lim]]] in
+  fchain_path gt = [36; 46; 120; 115; 91; 63; 40; 64; 46; 97; 62; 36; 46; 108; 105; 109; 41; 93]%N /\
+  forallb fstep_ok gt = true /\ forallb (fstep_okp pf) gt = true /\
+  map snd (nav_allf pf doc gt ([], doc)) = [VObj [("a", VJNum "3" (num_of_Z 3))]]%string /\
+  List.length (nav_allf pf doc [xs; FQ [[BRE lim]]] ([], doc)) = 3%nat /\
+  nav_allf pf doc [xs; FQ [[BRE no]]] ([], doc) = [] /\
+  List.length (nav_allf pf doc [xs; FQ [[BRN no; BE a]]] ([], doc)) = 3%nat /\
+  nav_allf pf doc [xs; FQ [[BCR a OGt no]]] ([], doc) = [].
 Proof. cbv zeta. repeat split; vm_compute; reflexivity. Qed.
